@@ -574,8 +574,66 @@ def r12_immediate_flag_scope(run, F):
     run.ob("R12-IMMEDIATE-FLAG-SCOPE", "scan", narms >= 2, F.where(b), "%d arms of the step loop replace the address (Autoderef/Autoview, Autodeslice 0)" % narms)
 
 
+def r13_array_literal_base(run, F):
+    """An array literal `[a, 7, b, 9]` is built from the constant array of its constant elements (placeholders at the run-time
+    positions), into which the run-time elements are inserted.  The aggregate operand of every insertvalue in the ArrayLiteral arm
+    therefore originates from LLVMConstArray (or from the previous insertvalue) and never from an `undef` of the array type:
+    starting from undef as soon as one element is not constant loses every constant element of a mixed literal."""
+    cands = [b for p, b in F.lib.bodies.items() if p.endswith("Expression as alpha::generator::Generatable>::generate") and "resolved::Expression" in p and "{closure" not in p]
+    run.require(len(cands) == 1, "Expression::generate not found (%d)" % len(cands))
+    b = cands[0]
+    ms = hirq.matches_on_type(F.lib, b["hir"], "resolved::Expression", min_alts=10)
+    run.require(len(ms) >= 1, "Expression::generate: match on the expression not found")
+    arms = hirq.arm_for(ms[0], "Expression::ArrayLiteral")
+    run.require(len(arms) == 1, "Expression::generate: ArrayLiteral arm not found")
+    ins = [c for c in hirq.calls(arms[0]["body"]) if (hirq.callee(c) or "").endswith("LLVMBuildInsertValue")]
+    for i, c in enumerate(ins):
+        o = origins.origins(b["hir"], c["a"][1], b.get("params", ()))
+        calls_ = sorted(str(k[1]).split("::")[-1] for k in o if k[0] == "call" and "llvm_sys" in str(k[1]))
+        ok = "LLVMConstArray" in calls_ and "LLVMGetUndef" not in calls_
+        run.ob("R13-ARRAY-LITERAL-BASE", "insertvalue #%d" % i, ok, F.where(b, c),
+               "the array that run-time elements are inserted into is the LLVMConstArray of the constant elements, never undef (a mixed literal would lose "
+               "its constant elements); LLVM origins of the aggregate: %s" % calls_)
+    run.ob("R13-ARRAY-LITERAL-BASE", "scan", len(ins) >= 1, F.where(b, arms[0]), "%d insertvalue site(s) in the ArrayLiteral arm" % len(ins))
+
+
+def r3b_cast_always_converted(run, F):
+    """`x as T` has the LLVM type of T: the value of a primitive cast is whatever generate_conversion returns for the pair of types,
+    on every path.  A shortcut that hands back the operand unconverted for "same width" pairs is wrong where the storage width
+    and the LLVM type differ (bool is one byte of storage and `i1` as a value: `true as u8` would stay an i1, and the textual IR of
+    a constant aggregate that holds it is rejected by llvm-as while the in-process verifier does not look inside constants)."""
+    from rules import visit
+    cands = [b for p, b in F.lib.bodies.items() if p.endswith("::generate_primitive_cast")]
+    run.require(len(cands) == 1, "generate_primitive_cast not found")
+    b = cands[0]
+    leaves = visit.result_leaves(b["hir"])
+    if not any((hirq.callee(c) or "").endswith("::generate_conversion") for c in hirq.calls(b["hir"])):
+        from rules.core import CannotAnalyse
+        raise CannotAnalyse("R3-CAST-ALWAYS-CONVERTED: generate_primitive_cast no longer calls generate_conversion; the rule reads that form only")
+    bad = []
+    for l in leaves:
+        x = hirq.unwrap_trivial(l)
+        if x.get("k") == "Call" and (hirq.callee(x) or "").endswith("::generate_conversion"):
+            continue
+        if x.get("k") == "Call" and (hirq.callee(x) or "").endswith("FromResidual::from_residual"):
+            continue      # `?`: an error is propagated
+        bad.append(l)
+    run.ob("R3-CAST-ALWAYS-CONVERTED", "generate_primitive_cast", bool(leaves) and not bad, F.where(b, bad[0]) if bad else F.where(b),
+           "every value generate_primitive_cast returns comes from generate_conversion (%d result expression(s), %d do not)" % (len(leaves), len(bad)))
+    gen = [bb for p, bb in F.lib.bodies.items() if p.endswith("Expression as alpha::generator::Generatable>::generate") and "resolved::Expression" in p and "{closure" not in p]
+    run.require(len(gen) == 1, "Expression::generate not found")
+    ms = hirq.matches_on_type(F.lib, gen[0]["hir"], "resolved::Expression", min_alts=10)
+    arms = hirq.arm_for(ms[0], "Expression::PrimitiveCast") if ms else []
+    ok = len(arms) == 1 and [hirq.unwrap_trivial(l).get("k") == "Call" and (hirq.callee(hirq.unwrap_trivial(l)) or "").endswith("::generate_primitive_cast")
+                             for l in visit.result_leaves(arms[0]["body"])] == [True]
+    run.ob("R3-CAST-ALWAYS-CONVERTED", "Expression::PrimitiveCast arm", ok, F.where(gen[0], arms[0] if arms else None),
+           "the PrimitiveCast arm of the generator is exactly the call of generate_primitive_cast")
+
+
 def check(run):
     F = run.facts("B")
+    r3b_cast_always_converted(run, F)
+    r13_array_literal_base(run, F)
     r11_immediate_parameter_index(run, F)
     r12_immediate_flag_scope(run, F)
     r10_step_chaining(run, F)
